@@ -8,7 +8,7 @@ cfg = json.load(open(os.path.join(ROOT, "kani", "config.json")))
 ids = [json.loads(l)["id"] for l in open(os.path.join(ROOT, "properties.jsonl"))]
 checks = []
 for pid in ids:
-    if pid not in plan["properties"]:
+    if pid not in plan["properties"] or plan["properties"][pid].get("hold"):
         continue
     pp = plan["properties"][pid]
     hs = [h for h, i in cfg["harnesses"].items() if pid in i.get("props", [])]
@@ -43,13 +43,13 @@ m = {
         "add_only": True,
     },
     "engines": [
-        {"name": "V", "path": "tools/verus_run.py", "serves_properties": [p for p in ids if p in plan["properties"] and plan["properties"][p].get("verus")],
+        {"name": "V", "path": "tools/verus_run.py", "serves_properties": [p for p in ids if p in plan["properties"] and plan["properties"][p].get("verus") and not plan["properties"][p].get("hold")],
          "kind_free_text": "Verus 0.2026.09.13 on mechanically extracted function text + sidecar contracts (verus/units/*.vu), unbounded proofs"},
         {"name": "K", "path": "tools/kani_run.py", "serves_properties": sorted(set(p for i in cfg["harnesses"].values() for p in i.get("props", []))),
          "kind_free_text": "Kani 0.68 harnesses injected into a scratch copy of /repo: loop-free full-domain harnesses are complete proofs, unwound ones are bounded stand-ins"},
     ],
     "checks": checks,
-    "not_applicable": [x for x in na if x["property_id"] not in plan["properties"]],
+    "not_applicable": [x for x in na if x["property_id"] not in plan["properties"] or plan["properties"][x["property_id"]].get("hold")],
     "notes": "Exit codes: 0 held (KNOWN-FINDING lines possible), 1 VIOLATION, 2 undecided/tool failure. Genuine defects repaired by `fix:` commits in /repo are recorded in known_findings.json as fixed entries. See DESIGN.md.",
 }
 json.dump(m, open(os.path.join(ROOT, "MANIFEST.json"), "w"), indent=1)
